@@ -1221,6 +1221,24 @@ def fuse_for_over_comp(stmts: list[ast.stmt], pure_calls=()) -> list[ast.stmt]:
             for h in s.handlers:
                 h.body = fuse_for_over_comp(h.body, pure_calls)
         it = s.iter if isinstance(s, ast.For) else None
+        if isinstance(it, ast.GeneratorExp) and len(it.generators) == 1 and not s.orelse and not is_pure(it, pure_calls) and not it.generators[0].is_async:
+            # a generator expression is evaluated on the fly, one element per iteration: the fused loop runs exactly the same steps
+            g = it.generators[0]
+            bound = {n.id for n in ast.walk(g.target) if isinstance(n, ast.Name)}
+            tnames = {n.id for n in ast.walk(s.target) if isinstance(n, ast.Name)}
+            outer_reads = {n.id for st in s.body for n in ast.walk(st) if isinstance(n, ast.Name)} - tnames
+            if not (_assigned_names(s.body) & bound) and not (bound & outer_reads) and not (tnames & bound - {n.id for n in ast.walk(it.elt) if isinstance(n, ast.Name)}) \
+                    and not any(isinstance(n, (ast.Yield, ast.YieldFrom, ast.NamedExpr)) for n in ast.walk(it)):
+                same = ast.dump(s.target).replace("Store()", "Load()") == ast.dump(it.elt)
+                bind = [] if same else [ast.Assign(targets=[copy.deepcopy(s.target)], value=copy.deepcopy(it.elt))]
+                inner = bind + list(s.body)
+                for c in reversed(g.ifs):
+                    inner = [ast.If(test=copy.deepcopy(c), body=inner, orelse=[])]
+                new = ast.For(target=copy.deepcopy(g.target), iter=copy.deepcopy(g.iter), body=inner, orelse=[], type_comment=None)
+                ast.copy_location(new, s)
+                ast.fix_missing_locations(new)
+                out.append(new)
+                continue
         if isinstance(it, (ast.ListComp, ast.GeneratorExp)) and len(it.generators) == 1 and not s.orelse and is_pure(it, pure_calls):
             g = it.generators[0]
             bound = {n.id for n in ast.walk(g.target) if isinstance(n, ast.Name)}
